@@ -68,13 +68,13 @@ fn tokenize(s: &str) -> Vec<(usize, usize, TK)> {
     v
 }
 
-const REPLACEMENTS: [&str; 47] = [
+const REPLACEMENTS: [&str; 52] = [
     "END", "MACRO", "LAYER", "PIN", ";", "1.5", "-3", "\"unterminated", "RECT", "LIBRARY", "é", "1é", "-é", ".日",
     // numeric extremes: decimal / integer / float limits and odd spellings
     "79228162514264337593543950335", "-79228162514264337593543950335", "79228162514264337593543950336", "99999999999999999999999999999999999999", "0.0000000000000000000000000001", "0.00000000000000000000000000000000001",
     "7922816251426433759354395033.5", "7922816251426433759354395034", "-7922816251426433759354395034", "39614081257132168796771975168", "792281625142643375935439504", "281474976710657", "4294967296", "-2147483649", "18446744073709551616", "1e308", "1e-400", "-0", "-", ".", "-.5",
     // string literals spanning lines, and ASCII characters no token can start with
-    "\"multi\nline\"", "\"two\n\nbreaks", "\"é\n日\"", "\"\n", "_x", "(", "$", "*", "=", "€", "§", "@name",
+    "\r", "\r\n", "\u{feff}", "\x0c", "\x0b", "\"multi\nline\"", "\"two\n\nbreaks", "\"é\n日\"", "\"\n", "_x", "(", "$", "*", "=", "€", "§", "@name",
 ];
 const NONASCII: [&str; 6] = ["é", "日本", "😀", "e\u{301}", "ß", "\u{a0}"];
 
